@@ -22,40 +22,12 @@
 #endif
 #define BUFSZ (REF_MAXLEN + 2 + NEW)
 
-/* reference continuation: b[] are the new bytes, block code `code` has `left` data bytes outstanding */
-static int ref_resume(unsigned code, unsigned left, const uint8_t *b, size_t n, uint8_t *out, size_t *used)
-{
-	size_t i = 0, o = 0; unsigned j, data = left;
-	for (;;) {
-		for (j = 0; j < data; j++) {
-			uint8_t v;
-			if (i >= n) return -1;
-			v = b[i++];
-			if (!v) {
-#if REF_INLINE
-				out[o++] = (uint8_t) code; *used = i; return (int) o;
-#else
-				return -2;
-#endif
-			}
-			out[o++] = v;
-		}
-		{
-			unsigned next;
-			if (i >= n) return -1;
-			next = b[i++];
-			if (REF_ZPE && code >= 0xe0) { out[o++] = 0; out[o++] = 0; }
-			else if (code < REF_MAXLEN && next) { out[o++] = 0; }
-			if (!next) { *used = i; return (int) o; }
-			code = next;
-			data = (REF_ZPE && code >= 0xe0) ? code - 0xe0 : code - 1;
-		}
-	}
-}
+#define NB NEW
+#include "ref_decode.h"
 
 void harness(void)
 {
-	IN(uint8_t, in_code); uint8_t in_new[NEW]; IN(size_t, in_n); IN(size_t, in_k);
+	IN(uint8_t, in_code); uint8_t in_new[NEW]; IN(size_t, in_n); IN(size_t, in_k); V_FILL(in_new);
 	static uint8_t store[BUFSZ]; uint8_t ref_out[2 * NEW + 4];
 	MPT_STRUCT(decode_state) dec = MPT_DECODE_INIT; struct iovec src; size_t i, had, used = 0; int d, ref;
 	/* a block near or at the limit with RLEFT data bytes still to come */
